@@ -10,6 +10,7 @@ import FaxVerif.C08.Proofs
 import FaxVerif.C08.MdTheorems
 import FaxVerif.C08.ExtTheorems
 import FaxVerif.C08.WireNTheorems
+import FaxVerif.C08.ChainTheorems
 namespace FaxVerif.C08
 
 /-! ## (b) bound names -/
